@@ -10,7 +10,7 @@ HIST_NOTE = ("Trusted base: the simulator (SimFS interposition, virtual-time loo
 
 CHECKS = {
     "C01": ("E-HIST", "exploration", "4/C01",
-            "Seeded request histories (all write/read methods, restarts, store-cache evictions, clock jumps, chunked delivery) through both real front ends over tree-git, bare-git and git-config collections; after every step a client-side audit (PROPFIND Depth 1 + GET of every member, sampled tombstones) is compared with an acknowledgement-following model; a quarter of the runs drive vdir/memory/bare/tree stores at the Store API through several handles; 30 % of the HTTP runs inject ENOSPC/EIO into write requests. Exploration is the honest level: histories are sampled, each one is checked completely.",
+            "Seeded request histories (all write/read methods, restarts, store-cache evictions, clock jumps, chunked delivery) through both real front ends over tree-git, bare-git and git-config collections; after every step a client-side audit (PROPFIND Depth 1 + GET of every member, sampled tombstones) is compared with an acknowledgement-following model; a quarter of the runs drive vdir/memory/bare/tree stores at the Store API through several handles; 30 % of the HTTP runs inject ENOSPC/EIO into write requests (and a failed write is retried); one run in 29 is a collection of a thousand-odd members with I/O errors inside the index write. Exploration is the honest level: histories are sampled, each one is checked completely.",
             "deterministic simulation: seeded histories + follow-the-ack model + full audit per step"),
     "C02": ("E-HIST", "exploration", "4/C02",
             "Same histories with a view-heavy mix; at every audit the etag of each member is compared across PUT response, GET, HEAD, PROPFIND Depth 0/1, multiget, calendar-query and sync-collection, and a per-path bijection etag <-> served bytes is maintained over the whole history. One third of the runs (E-CONC) overlap a read with a write on the aiohttp front end (await points, parked worker threads over the whole length of a git commit) and require equivalence with one of the two sequential executions.",
